@@ -24,6 +24,13 @@ SETS_QUICK.append((["urn:caf\u00e9.1", "urn:cafe\u0301.1", "\u212bx"], [None, "f
 # content and the first metadata document of this universe are equal)
 PATHLIKE = (["src/c0", "src/d0", "src/../src/c1"], [None, "src/d0"])
 SETS_QUICK.append(PATHLIKE)
+# identifiers spelled like names the store derives for *another* identifier: the digest of a pid (its reference file
+# and metadata directory), the digest of pid + namespace (its default metadata document)
+import hashlib as _hl
+_P = "doi:10.5063/F1"
+DERIVED = ([_P, _hl.sha256(_P.encode()).hexdigest(), _hl.sha256((_P + "ns").encode()).hexdigest()],
+           [None, _hl.sha256(_P.encode()).hexdigest()])
+SETS_QUICK.append(DERIVED)
 SETS_THOROUGH = SETS_QUICK + [
     (["a", "ab", "b", "ba"], [None, "c", "bc", "cb"]),
     (["/etc/passwd", "..", "."], [None, "/", ".."]),
